@@ -242,8 +242,15 @@ Ltac invA_auto s IC I H :=
   step_cases H;
   (constructor; [constructor|]); simpl; intros; try solve [auto]; cnt_tac;
   cnt_special Ahwg Arwg Ahb1 Amb Aloop2;
-  upd_all; try solve [auto]; try (timeout 10 fin);
-  inst_all; try (inst_with (nextm s)); try (timeout 10 fin); try (timeout 10 fin2); try (timeout 10 fin4).
+  upd_all; try solve [auto];
+  (* the one goal on which the general finishers diverge is dispatched by its shape first (no time-outs anywhere) *)
+  try (match goal with
+       | Hl : lp ?s0 ?h = LLocked ?m, Hp : pp ?s0 ?h0 = PSend ?m |- _ = MPump ?h0 =>
+           solve [exfalso; pose proof (Apump2 h0 m Hp);
+                  assert (mp s0 m = MLoop h) by (apply Aloop2; rewrite Hl; simpl; apply Nat.eqb_refl); congruence]
+       end);
+  fin;
+  inst_all; try (inst_with (nextm s)); fin; fin2; fin4.
 
 Lemma InvA_LClose s c s' : InvC s -> InvA' s -> step s (LClose c) = Some s' -> InvA' s'.
 Proof.
@@ -318,11 +325,6 @@ Qed.
 Lemma InvA_LLoop s h s' : InvC s -> InvA' s -> step s (LLoop h) = Some s' -> InvA' s'.
 Proof.
   intros IC I H. invA_auto s IC I H.
-  all: match goal with
-    | Hl : lp ?s ?h = LLocked ?m, Hp : pp ?s ?h0 = PSend ?m |- _ = MPump ?h0 =>
-        exfalso; pose proof (Apump2 h0 m Hp);
-        assert (mp s m = MLoop h) by (apply Aloop2; rewrite Hl; simpl; apply Nat.eqb_refl); congruence
-    end.
 Qed.
 
 Lemma InvA_LPump s h s' : InvC s -> InvA' s -> step s (LPump h) = Some s' -> InvA' s'.
